@@ -6,3 +6,5 @@ package main
 var driverErrors = []error{errDriverInjected}
 
 var errSQLiteBusy error = errDriverInjected
+
+func codedDriverErr(code int) error { return errDriverInjected }
